@@ -65,6 +65,15 @@ CHECKS = {
          'Every operation x every device->host packet it awaits x {silence, end-of-stream, trickle x4, endless foreign traffic, endless unexpected packets} x a 4x4x4 timeout grid (None, 0, '
          'negative included), 1 ms of virtual time per transport call: the call must raise a timeout class within 4x(read+transport)+total, never return, never block forever (Hang / watchdog '
          'verdicts), and hand the transport only timeouts <= the effective read timeout.', 'trusts adbsim and the virtual clock; auth_timeout_s=None excluded', '4/C11'),
+ 'C12': ('fault_enumeration', 'exhaustive single-fault (and fault-pair) injection at every transport-call index, followed by reconnect and replay',
+         'A fault (timeout once / sticky reset / sticky end-of-stream) at EVERY index of the transport-call sequence of a scenario that keeps a second stream suspended, then close-or-not, '
+         'connect to a healthy device and the whole scenario again; a second fault at indices of the recovery pass (quick: stated stride; thorough: all pairs); <=1 deviation of the device '
+         'wire order; both twins. Each call must raise or return the solo result, no lock may stay held, close()/connect() must complete, the store must be empty after connect(), the '
+         'replay must return the solo results.', 'trusts adbsim; lock state read from the Lock attributes; a VLock stand-in turns self-deadlock into a verdict', '4/C12'),
+ 'C15': ('exploration', 'deviation-bounded stateless DFS over per-bulk_write accepted-byte choices; in-memory part only so far',
+         'Every bulk_write of a session (connect with signature, shell, stat, 3-WRTE push, pull) may accept all / 1 / len-1 / half of the bytes and reports the count: all placements of <=2 '
+         '(thorough 3) deviations, plus global capacities 1..4095, both twins; whenever a call returns normally the device model must have received exactly the byte stream of the unlimited run.',
+         'trusts adbsim; the real-socket half of C15 (loopback with small SO_SNDBUF) is exercised by C18's session part once built', '4/C15'),
 }
 NOT_YET = 'check not built yet in this round (planned, see DESIGN.md section 4); not claimed until it runs'
 
